@@ -546,6 +546,7 @@ func (e *BinaryOpExpr) execStringConcateBatch(chunk []KVPair, ctx *ExecuteCtx) (
 }
 
 func (e *FunctionCallExpr) ExecuteBatch(chunk []KVPair, ctx *ExecuteCtx) ([]any, error) {
+	simYield("call.batch")
 	var (
 		ret = make([]any, len(chunk))
 	)
@@ -687,6 +688,7 @@ func (e *FieldReferenceExpr) ExecuteBatch(chunk []KVPair, ctx *ExecuteCtx) ([]an
 			return retCopy, nil
 		}
 	}
+	simYield("alias.batch")
 	ret, err := e.FieldExpr.ExecuteBatch(chunk, ctx)
 	if err != nil {
 		return ret, err
